@@ -326,6 +326,10 @@ class MSSubstituter(Substituter):
     @handles(set(op.ALL_TYPES) - op.QUANTIFIERS)
     def walk_replace(self, formula, args, **kwargs):
         new_f =  Substituter.super(self, formula, args=args, **kwargs)
+        if new_f.node_type() != formula.node_type():
+            # The constructor collapsed the node into (a part of) an
+            # argument that has already been substituted
+            return new_f
         return self._substitute(new_f, kwargs['substitutions'])
 
     def walk_forall(self, formula, args, **kwargs):
